@@ -18,6 +18,14 @@ from .. import core, nets, tla, mc
 LEVEL = "model_checking"
 
 
+def _neg(x):
+    return -x
+
+
+def _ident(x):
+    return x
+
+
 def make_pool(rng):
     """8 calls differing from the base in exactly one component"""
     base = nets.Net([[1, 2], [2, 3], [3, 4]], [1, 4], [2, 3, 2, 3], lab={1: "a", 2: "b", 3: "c", 4: "d", 5: "p", 6: "u", 7: "q", 8: "r", 9: "s"})
@@ -30,7 +38,8 @@ def make_pool(rng):
     pool.append(call(nets.Net(base.inputs, base.output, [2, 3, 2, 2], lab=L)))                           # one size
     pool.append(call(base, optimize=rng.choice(["optimal", [(1, 2), (0, 1)], "auto"])))                  # optimize value
     pool.append(call(base, kwargs=rng.choice([{"strip_exponent": True}, {"prefer_einsum": True},
-                                              {"implementation": "autoray"}, {"sort_contraction_indices": True}])))  # one kwarg
+                                              {"implementation": "autoray"}, {"sort_contraction_indices": True},
+                                              {"via": (_ident, _neg)}, {"via": (_ident, _neg)}])))  # one kwarg
     ren = {1: 7, 2: 5, 3: 9, 4: 8}
     dims = [1] * 9
     for a, b in ren.items():
@@ -119,6 +128,8 @@ def replay_seq(run, ct, rng, pool, seq, entry):
         arrays = arrays_for(net, rng)
         arrays_b = arrays_for(net, rng)
         ref = nets_ref(net, arrays)
+        sign = -1.0 if "via" in kw else 1.0           # via=(identity, negate): the call means minus the contraction
+        ref = sign * ref
         obj, same, ok = 0, True, True
         with core.watchdog(120):
             if entry == "einsum":
@@ -139,7 +150,7 @@ def replay_seq(run, ct, rng, pool, seq, entry):
                 got, unc = ex(*arrays), exu(*arrays)
                 # a cached expression re-applied to NEW arrays of the same shapes
                 gb = value_of(ex(*arrays_b))
-                refb = nets_ref(net, arrays_b)
+                refb = sign * nets_ref(net, arrays_b)
                 if gb.shape != refb.shape or not np.allclose(gb, refb, rtol=1e-12, atol=1e-12):
                     ok = False
             elif entry == "expression_with_constants":
@@ -155,7 +166,7 @@ def replay_seq(run, ct, rng, pool, seq, entry):
                 objs["keep%d" % step] = ex
                 restb = [a for k_, a in enumerate(arrays_b) if k_ != ci]
                 gb = value_of(ex(*restb))
-                refb = nets_ref(net, [arrays[k_] if k_ == ci else arrays_b[k_] for k_ in range(net.N)])
+                refb = sign * nets_ref(net, [arrays[k_] if k_ == ci else arrays_b[k_] for k_ in range(net.N)])
                 if gb.shape != refb.shape or not np.allclose(gb, refb, rtol=1e-12, atol=1e-12):
                     ok = False
             else:   # array_contract_path
@@ -163,7 +174,9 @@ def replay_seq(run, ct, rng, pool, seq, entry):
                 p = ct.array_contract_path(net.c_inputs(), net.c_output(), sizes_of(c), optimize=opt if opt != "auto" else "greedy", cache=True, **ckw)
                 pu = ct.array_contract_path(net.c_inputs(), net.c_output(), sizes_of(c), optimize=opt if opt != "auto" else "greedy", cache=False, **ckw)
                 same = tuple(map(tuple, p)) == tuple(map(tuple, pu))
-                # the value of the contraction along the returned path (explicit path, nothing cached)
+                # the value of the contraction along the returned path (explicit path, nothing cached; options such as `via`
+                # are not part of a path request)
+                ref = nets_ref(net, arrays)
                 got = unc = ct.array_contract(arrays, net.c_inputs(), net.c_output(), optimize=tuple(map(tuple, p)), cache_expression=False)
         g, u = value_of(got), value_of(unc)
         if g.shape != u.shape or not np.array_equal(g, u):
@@ -296,6 +309,44 @@ def nested_and_unhashable(run, ct, rng, count):
                 run.violation(f"array_contract with an unhashable description ({sorted(kw)}) as call {k + 1} of a sequence of different "
                               f"contractions gives a wrong value: eq={nb.eq()} (sequence {[x.eq() for x in seq]})", d2,
                               tags={"unhashable-description", "value"})
+                break
+
+
+def edge_path_pairs(run, ct, rng, count):
+    """the same explicit EDGE path (a tuple of index labels) asked for differently wired networks with the same number of
+    tensors, caches kept in between: what an edge path means depends on the wiring"""
+    from cotengra import interface
+    pool = [n for n in nets.net_pool(rng, 40, nmin=3, nmax=5, weird=False) if n.K >= 3 and nets.connected(n)]
+    for _ in range(count):
+        a = rng.choice(pool)
+        order = list(range(a.N))
+        rng.shuffle(order)
+        # b: the same labels and sizes wired differently (tensors permuted and one index moved to another tensor)
+        inputs_b = [list(a.inputs[i]) for i in order]
+        t_from = rng.randrange(a.N)
+        if len(inputs_b[t_from]) > 1:
+            ix = inputs_b[t_from].pop(rng.randrange(len(inputs_b[t_from])))
+            inputs_b[(t_from + 1) % a.N].append(ix)
+        b = nets.Net(inputs_b, a.output, a.dims, lab=a.lab)
+        ep = tuple(a.lab[ix] for ix in rng.sample(range(1, a.K + 1), a.K))
+        interface._PATH_CACHE.clear()
+        interface._CONTRACT_EXPR_CACHE.clear()
+        ckw = {"canonicalize": False} if rng.random() < 0.6 else {}      # labels taken as they are / renamed by appearance
+        for k, net in enumerate((a, b, a, b)):
+            d = {"net": net.to_json(), "edge_path": list(ep), "step": k, "kw": ckw}
+            run.count()
+            run.nontrivial(("edge-path-pair", a.eq(), b.eq(), ep, k))
+            try:
+                pc = tuple(map(tuple, ct.array_contract_path(net.c_inputs(), net.c_output(), net.c_sizes(), optimize=ep, cache=True, **ckw)))
+                pu = tuple(map(tuple, ct.array_contract_path(net.c_inputs(), net.c_output(), net.c_sizes(), optimize=ep, cache=False, **ckw)))
+            except Exception as e:
+                run.violation(f"array_contract_path with an explicit edge path raised {core.exc_text(e)} eq={net.eq()}", d,
+                              tags={"edge-path-pair", "raised"})
+                break
+            if pc != pu:
+                run.violation(f"array_contract_path(optimize=<edge path {ep}>): with caching on -> {pc}, with caching off -> {pu} for "
+                              f"eq={net.eq()} asked as call {k + 1} after the differently wired {a.eq() if net is b else b.eq()}", d,
+                              tags={"edge-path-pair", "path"})
                 break
 
 
@@ -432,6 +483,7 @@ def run(run):
     object_histories(run, ct, rng, 12 if quick else 120)
     container_forms(run, ct, rng)
     nested_and_unhashable(run, ct, rng, 10 if quick else 100)
+    edge_path_pairs(run, ct, rng, 12 if quick else 150)
     # labels with colliding hashes, not canonicalised: every sequence of length 3 over the two calls
     cpool = collision_pool()
     for entry in ("array_contract", "array_contract_expression", "array_contract_path", "expression_with_constants"):
